@@ -47,6 +47,7 @@ type Config struct {
 	Relayer func(*relayertypes.GenesisState)
 	Bitcoin func(*bitcointypes.GenesisState)
 	Auth    func(*[]authtypes.GenesisAccount)
+	Cons    func(*cmttypes.ConsensusParams)
 	// ExtraAccounts are created at genesis after validators and relayers (e.g. a stranger).
 	ExtraAccounts []sdk.AccAddress
 }
@@ -235,6 +236,9 @@ func (w *World) buildGenesis(cdc codec.Codec) error {
 	w.GenState = bz
 	cp := cmttypes.DefaultConsensusParams()
 	cp.Validator.PubKeyTypes = []string{"secp256k1"}
+	if cfg.Cons != nil {
+		cfg.Cons(cp)
+	}
 	w.ConsParams = cp.ToProto()
 	return nil
 }
